@@ -1,3 +1,330 @@
-(* C01 — placeholder while the proofs are being written: statements only. *)
-From Sebuf Require Import Text Json Route Schema Value GoRt.
-Example C01_placeholder : True. Proof. exact I. Qed.
+(* C01 — The emitted Go client and the emitted Go server agree on one call: outside the known defect
+   classes the handler sees the request the caller sent, and the caller gets the handler's reply.
+   Only statements, [exact <lemma>], Print Assumptions, and examples checked by computation. *)
+From Sebuf Require Import Text Json Route Schema Value Num Url GoRt.
+From SebufProofs Require Import NumFacts UrlFacts GoRtFacts.
+
+(* ---- A. fmt.Sprint then strconv.Parse* gives the number back ------------------------------------- *)
+
+Theorem C01_parse_nat_show : forall n : N, parse_nat (show_nat_N n) = Some n.
+Proof. exact parse_nat_show. Qed.
+Print Assumptions C01_parse_nat_show.
+
+Theorem C01_parse_int_show : forall bits z, (0 < bits)%N ->
+  (- 2 ^ Z.of_N (bits - 1) <= z < 2 ^ Z.of_N (bits - 1))%Z ->
+  parse_int bits (show_int z) = Some z.
+Proof. exact parse_int_show. Qed.
+Print Assumptions C01_parse_int_show.
+
+Theorem C01_parse_uint_show : forall bits z, (0 <= z < 2 ^ Z.of_N bits)%Z ->
+  parse_uint bits (show_int z) = Some z.
+Proof. exact parse_uint_show. Qed.
+Print Assumptions C01_parse_uint_show.
+
+Theorem C01_parse_bool_show : forall b, parse_bool (show_bool b) = Some b.
+Proof. exact parse_bool_show. Qed.
+Print Assumptions C01_parse_bool_show.
+
+Theorem C01_show_int_first : forall z, exists c r,
+  show_int z = c :: r /\ (is_digit c = true \/ c = "-"%char).
+Proof. exact show_int_first. Qed.
+Print Assumptions C01_show_int_first.
+
+Theorem C01_show_int_nonempty : forall z, show_int z <> [].
+Proof. exact show_int_nonempty. Qed.
+Print Assumptions C01_show_int_nonempty.
+
+Theorem C01_show_int_not_dirty : forall z, dirty_seg (show_int z) = false.
+Proof. exact show_int_not_dirty. Qed.
+Print Assumptions C01_show_int_not_dirty.
+
+Theorem C01_show_int_not_slash : forall z, str_eqb (show_int z) [slash] = false.
+Proof. exact show_int_not_slash. Qed.
+Print Assumptions C01_show_int_not_slash.
+
+(* ---- B. net/url ------------------------------------------------------------------------------------ *)
+
+Theorem C01_path_unescape_escape : forall x, path_unescape (path_escape x) = Some x.
+Proof. exact path_unescape_escape. Qed.
+Print Assumptions C01_path_unescape_escape.
+
+Theorem C01_query_unescape_escape : forall x, query_unescape (query_escape x) = Some x.
+Proof. exact query_unescape_escape. Qed.
+Print Assumptions C01_query_unescape_escape.
+
+Theorem C01_path_escape_no_slash : forall x, In slash (path_escape x) -> False.
+Proof. exact path_escape_no_slash. Qed.
+Print Assumptions C01_path_escape_no_slash.
+
+Theorem C01_path_escape_nil_iff : forall x, path_escape x = [] <-> x = [].
+Proof. exact path_escape_nil_iff. Qed.
+Print Assumptions C01_path_escape_nil_iff.
+
+Theorem C01_split_on_join : forall c l, l <> [] -> (forall x, In x l -> ~ In c x) ->
+  split_on c (join_with [c] l) = l.
+Proof. exact split_on_join. Qed.
+Print Assumptions C01_split_on_join.
+
+Theorem C01_query_escape_clean : forall x c, In c (query_escape x) ->
+  c <> amp /\ c <> eqc /\ c <> ";"%char.
+Proof. exact query_escape_clean. Qed.
+Print Assumptions C01_query_escape_clean.
+
+(* holds for every list of pairs: an encoded pair always contains '=' and so is never empty *)
+Theorem C01_parse_query_encode : forall kv, parse_query (encode_query kv) = sort_kv kv.
+Proof. exact parse_query_encode_all. Qed.
+Print Assumptions C01_parse_query_encode.
+
+(* ---- C. scalars, message values, matching ------------------------------------------------------------ *)
+
+Theorem C01_convert_sprint : forall k v, url_kind_ok k = true -> typed_scalar k v ->
+  convert k (sprint v) = Some v.
+Proof. exact convert_sprint. Qed.
+Print Assumptions C01_convert_sprint.
+
+Theorem C01_scalar_of_mset_same : forall fs m f v,
+  url_kind_ok (f_kind f) = true -> typed_scalar (f_kind f) v ->
+  scalar_of (mset_scalar fs m f v) f = v.
+Proof. exact scalar_of_mset_same. Qed.
+Print Assumptions C01_scalar_of_mset_same.
+
+Theorem C01_scalar_of_mset_other : forall fs m f v g, f_name g <> f_name f ->
+  scalar_of (mset_scalar fs m f v) g = scalar_of m g.
+Proof. exact scalar_of_mset_other. Qed.
+Print Assumptions C01_scalar_of_mset_other.
+
+(* a pattern matches its own filled segments and yields the printed values of its variables *)
+Theorem C01_match_fill : forall fs req segs filled,
+  all_ok (map (fill_seg fs req) segs) = Ok filled ->
+  lits_ok segs = true ->
+  (forall v, In v (seg_vars segs) -> var_val fs req v <> [] /\ var_val fs req v <> [slash]) ->
+  match_segs segs filled = Some (bindings fs req (seg_vars segs)).
+Proof. exact match_fill. Qed.
+Print Assumptions C01_match_fill.
+
+(* literals without '%' are fine *)
+Theorem C01_lit_no_pct : forall x, ~ In "%"%char x -> seg_unescape x = x.
+Proof. exact seg_unescape_no_pct. Qed.
+Print Assumptions C01_lit_no_pct.
+
+(* ---- the end-to-end theorems -------------------------------------------------------------------------- *)
+
+(* POST / PUT / PATCH: the handler sees exactly the request, the caller gets exactly the reply. *)
+Theorem C01_body_verbs : forall sc fl sv md ct req resp w o,
+  go_call sc fl sv md ct req resp = Ok (w, o) ->
+  defects_C01 sc fl sv md ct req = [] ->
+  verb_has_body (eff_verb (info_of fl sv md (in_fields sc md))) = true ->
+  In md (sv_methods sv) -> NoDup (map md_name (sv_methods sv)) ->
+  template_ok (info_of fl sv md (in_fields sc md)) = true ->
+  path_vals_nonempty (in_fields sc md) req (path_vars (info_of fl sv md (in_fields sc md))) = true ->
+  req_typed (in_fields sc md) req ->
+  o = Delivered req resp.
+Proof. exact go_call_body. Qed.
+Print Assumptions C01_body_verbs.
+
+(* GET / DELETE: every field of the input travels on the URL; the handler sees the same scalars. *)
+Theorem C01_bodiless_verbs : forall sc fl sv md ct req resp w o,
+  go_call sc fl sv md ct req resp = Ok (w, o) ->
+  defects_C01 sc fl sv md ct req = [] ->
+  verb_has_body (eff_verb (info_of fl sv md (in_fields sc md))) = false ->
+  In md (sv_methods sv) -> NoDup (map md_name (sv_methods sv)) ->
+  template_ok (info_of fl sv md (in_fields sc md)) = true ->
+  path_vals_nonempty (in_fields sc md) req (path_vars (info_of fl sv md (in_fields sc md))) = true ->
+  req_typed (in_fields sc md) req ->
+  NoDup (map f_name (in_fields sc md)) ->
+  NoDup (map qname (query_fields (in_fields sc md))) ->
+  (forall f, In f (in_fields sc md) ->
+     In (f_name f) (path_vars (info_of fl sv md (in_fields sc md))) \/ f_query f <> None) ->
+  (forall f, In f (query_fields (in_fields sc md)) -> qrequired f = true ->
+     is_zero (scalar_of req f) = false) ->
+  exists saw, o = Delivered saw resp /\
+              forall f, In f (in_fields sc md) -> scalar_of saw f = scalar_of req f.
+Proof. exact go_call_nobody. Qed.
+Print Assumptions C01_bodiless_verbs.
+
+(* the same with every side condition as one boolean, checkable by computation *)
+Theorem C01_body_verbs_b : forall sc fl sv md ct req resp w o,
+  go_call sc fl sv md ct req resp = Ok (w, o) ->
+  defects_C01 sc fl sv md ct req = [] ->
+  In md (sv_methods sv) ->
+  wf_body sc fl sv md req = true ->
+  o = Delivered req resp.
+Proof. exact go_call_body_b. Qed.
+Print Assumptions C01_body_verbs_b.
+
+Theorem C01_bodiless_verbs_b : forall sc fl sv md ct req resp w o,
+  go_call sc fl sv md ct req resp = Ok (w, o) ->
+  defects_C01 sc fl sv md ct req = [] ->
+  In md (sv_methods sv) ->
+  wf_nobody sc fl sv md req = true ->
+  exists saw, o = Delivered saw resp /\
+              forall f, In f (in_fields sc md) -> scalar_of saw f = scalar_of req f.
+Proof. exact go_call_nobody_b. Qed.
+Print Assumptions C01_bodiless_verbs_b.
+
+(* the template condition in syntactic form: no '%' in the client's path template, no '{' in the
+   service base path *)
+Theorem C01_body_verbs_simple : forall sc fl sv md ct req resp w o,
+  go_call sc fl sv md ct req resp = Ok (w, o) ->
+  defects_C01 sc fl sv md ct req = [] ->
+  verb_has_body (eff_verb (info_of fl sv md (in_fields sc md))) = true ->
+  In md (sv_methods sv) -> NoDup (map md_name (sv_methods sv)) ->
+  simple_template (info_of fl sv md (in_fields sc md)) = true ->
+  path_vals_nonempty (in_fields sc md) req (path_vars (info_of fl sv md (in_fields sc md))) = true ->
+  req_typed (in_fields sc md) req ->
+  o = Delivered req resp.
+Proof. exact go_call_body_simple. Qed.
+Print Assumptions C01_body_verbs_simple.
+
+Theorem C01_bodiless_verbs_simple : forall sc fl sv md ct req resp w o,
+  go_call sc fl sv md ct req resp = Ok (w, o) ->
+  defects_C01 sc fl sv md ct req = [] ->
+  verb_has_body (eff_verb (info_of fl sv md (in_fields sc md))) = false ->
+  In md (sv_methods sv) -> NoDup (map md_name (sv_methods sv)) ->
+  simple_template (info_of fl sv md (in_fields sc md)) = true ->
+  path_vals_nonempty (in_fields sc md) req (path_vars (info_of fl sv md (in_fields sc md))) = true ->
+  req_typed (in_fields sc md) req ->
+  NoDup (map f_name (in_fields sc md)) ->
+  NoDup (map qname (query_fields (in_fields sc md))) ->
+  (forall f, In f (in_fields sc md) ->
+     In (f_name f) (path_vars (info_of fl sv md (in_fields sc md))) \/ f_query f <> None) ->
+  (forall f, In f (query_fields (in_fields sc md)) -> qrequired f = true ->
+     is_zero (scalar_of req f) = false) ->
+  exists saw, o = Delivered saw resp /\
+              forall f, In f (in_fields sc md) -> scalar_of saw f = scalar_of req f.
+Proof. exact go_call_nobody_simple. Qed.
+Print Assumptions C01_bodiless_verbs_simple.
+
+(* a template is read the same way by ExtractPathParams and by the segment-wise reading *)
+Theorem C01_extract_tsegs : forall p segs, tsegs p = Some segs -> extract_path_params p = seg_vars segs.
+Proof. exact extract_tsegs. Qed.
+Print Assumptions C01_extract_tsegs.
+
+(* ---- non-vacuity ------------------------------------------------------------------------------------------ *)
+
+Definition mkf (n : str) (num : Z) (k : kind) (q : option query_cfg) : field :=
+  {| f_name := n; f_number := num; f_kind := k; f_card := Singular; f_oneof := None; f_query := q;
+     f_unwrap := false; f_int64 := None; f_enumenc := None; f_nullable := None; f_empty := None;
+     f_tsfmt := None; f_bytesenc := None; f_oneof_value := None; f_flatten := None;
+     f_flatten_prefix := None |}.
+Definition mkmsg (n : str) (fs : list field) : message :=
+  {| m_name := n; m_path := [n]; m_fields := fs; m_oneofs := [] |}.
+Definition mkmd (n inp path : str) (v : nat) : method :=
+  {| md_name := n; md_in := inp; md_out := s "Resp"; md_has_cfg := true; md_path := path;
+     md_verb := Some v; md_headers := [] |}.
+Definition mksv (base : str) (mds : list method) : service :=
+  {| sv_name := s "Items"; sv_base := base; sv_headers := []; sv_methods := mds |}.
+Definition mkfl (ms : list message) (sv : service) : file :=
+  {| fl_path := s "a.proto"; fl_package := s "pkg"; fl_gopkg := s "pkg"; fl_generate := true;
+     fl_messages := ms; fl_enums := []; fl_services := [sv] |}.
+
+(* PUT /api/items/{id}/sub/{n} (string and int64 path variables, one body-only field),
+   GET /api/items/{id}?page=..&q=.. *)
+Definition put_md := mkmd (s "PutItem") (s "PutReq") (s "/items/{id}/sub/{n}") 3.
+Definition get_md := mkmd (s "GetItem") (s "GetReq") (s "/items/{id}") 1.
+Definition put_msg := mkmsg (s "PutReq")
+  [mkf (s "id") 1 KString None; mkf (s "n") 2 KInt64 None; mkf (s "note") 3 KString None].
+Definition get_msg := mkmsg (s "GetReq")
+  [mkf (s "id") 1 KString None;
+   mkf (s "page") 2 KInt32 (Some {| q_name := s "page"; q_required := false |});
+   mkf (s "q") 3 KString (Some {| q_name := s "q"; q_required := true |})].
+Definition sv1 := mksv (s "/api") [put_md; get_md].
+Definition fl1 := mkfl [put_msg; get_msg; mkmsg (s "Resp") []] sv1.
+Definition sc1 : schema := [fl1].
+Definition resp1 : mval := [(s "ok", FS (VBool true))].
+Definition put_req : mval :=
+  [(s "id", FS (VStr (s "a b/c%"))); (s "n", FS (VInt (-5))); (s "note", FS (VStr (s "x")))].
+Definition get_req : mval :=
+  [(s "id", FS (VStr (s "a b/c%"))); (s "page", FS (VInt 7)); (s "q", FS (VStr (s "x y&z=1")))].
+
+Example C01_body_nonvacuous :
+  wf_body sc1 fl1 sv1 put_md put_req = true /\
+  simple_template (info_of fl1 sv1 put_md (in_fields sc1 put_md)) = true /\
+  defects_C01 sc1 fl1 sv1 put_md CtJSON put_req = [] /\
+  In put_md (sv_methods sv1) /\
+  exists w, go_call sc1 fl1 sv1 put_md CtJSON put_req resp1 = Ok (w, Delivered put_req resp1) /\
+            w_path w = s "/api/items/a%20b%2Fc%25/sub/-5".
+Proof.
+  vm_compute. split; [reflexivity|]. split; [reflexivity|]. split; [reflexivity|].
+  split; [left; reflexivity|]. eexists. split; reflexivity.
+Qed.
+
+Example C01_bodiless_nonvacuous :
+  wf_nobody sc1 fl1 sv1 get_md get_req = true /\
+  defects_C01 sc1 fl1 sv1 get_md CtProto get_req = [] /\
+  In get_md (sv_methods sv1) /\
+  exists w, go_call sc1 fl1 sv1 get_md CtProto get_req resp1 = Ok (w, Delivered get_req resp1) /\
+            w_path w = s "/api/items/a%20b%2Fc%25" /\
+            w_query w = [(s "page", s "7"); (s "q", s "x y&z=1")].
+Proof.
+  vm_compute. split; [reflexivity|]. split; [reflexivity|]. split; [right; left; reflexivity|].
+  eexists. repeat split; reflexivity.
+Qed.
+
+(* ---- refutations: each known defect class on a concrete call ------------------------------------------------ *)
+
+Definition outcome_of (x : result (wire_req * outcome)) : option outcome :=
+  match x with Ok (_, o) => Some o | Unmodelled _ => None end.
+
+(* application/octet-stream: the client writes JSON, the server reads binary *)
+Example C01_refuted_octet_stream :
+  defects_C01 sc1 fl1 sv1 put_md CtOctet put_req = [C01OctetStreamJsonBody] /\
+  outcome_of (go_call sc1 fl1 sv1 put_md CtOctet put_req resp1) = Some (Rejected (s "body")).
+Proof. vm_compute. split; reflexivity. Qed.
+
+(* a path value "." is swallowed by ServeMux's path cleaning *)
+Definition put_req_dot : mval := [(s "id", FS (VStr (s "."))); (s "n", FS (VInt 1))].
+Example C01_refuted_dot_segment :
+  defects_C01 sc1 fl1 sv1 put_md CtJSON put_req_dot = [C01DotSegment] /\
+  outcome_of (go_call sc1 fl1 sv1 put_md CtJSON put_req_dot resp1) = Some NotRouted.
+Proof. vm_compute. split; reflexivity. Qed.
+
+(* a path value "/" (sent as %2F) is taken for a trailing slash *)
+Definition put_req_slash : mval := [(s "id", FS (VStr (s "/"))); (s "n", FS (VInt 1))].
+Example C01_refuted_slash_value :
+  defects_C01 sc1 fl1 sv1 put_md CtJSON put_req_slash = [C01SlashValue] /\
+  outcome_of (go_call sc1 fl1 sv1 put_md CtJSON put_req_slash resp1) = Some NotRouted.
+Proof. vm_compute. split; reflexivity. Qed.
+
+(* ---- the side conditions are needed: calls with an empty defect list that are not delivered intact ----------- *)
+
+(* an empty string in a path variable: "//" in the path, redirected by the mux *)
+Definition put_req_empty : mval := [(s "n", FS (VInt (-5)))].
+Example C01_needs_nonempty_path_value :
+  defects_C01 sc1 fl1 sv1 put_md CtJSON put_req_empty = [] /\
+  path_vals_nonempty (in_fields sc1 put_md) put_req_empty
+     (path_vars (info_of fl1 sv1 put_md (in_fields sc1 put_md))) = false /\
+  outcome_of (go_call sc1 fl1 sv1 put_md CtJSON put_req_empty resp1) = Some NotRouted.
+Proof. vm_compute. repeat split; reflexivity. Qed.
+
+(* a literal template segment holding a percent escape: the mux unescapes the request segment but
+   compares it with the literal as written *)
+Definition pct_md := mkmd (s "PutItem") (s "PutReq") (s "/a%41/{id}/sub/{n}") 3.
+Definition sv_pct := mksv (s "/api") [pct_md].
+Definition fl_pct := mkfl [put_msg] sv_pct.
+Example C01_needs_literal_without_escape :
+  defects_C01 [fl_pct] fl_pct sv_pct pct_md CtJSON put_req = [] /\
+  template_ok (info_of fl_pct sv_pct pct_md (in_fields [fl_pct] pct_md)) = false /\
+  outcome_of (go_call [fl_pct] fl_pct sv_pct pct_md CtJSON put_req resp1) = Some NotRouted.
+Proof. vm_compute. repeat split; reflexivity. Qed.
+
+(* a required query parameter holding the zero value is not sent, and the server rejects the call *)
+Definition get_req_zero : mval := [(s "id", FS (VStr (s "a")))].
+Example C01_needs_required_query_nonzero :
+  defects_C01 sc1 fl1 sv1 get_md CtJSON get_req_zero = [] /\
+  required_sentb (in_fields sc1 get_md) get_req_zero = false /\
+  outcome_of (go_call sc1 fl1 sv1 get_md CtJSON get_req_zero resp1) = Some (Rejected (s "q")).
+Proof. vm_compute. repeat split; reflexivity. Qed.
+
+(* a variable in the service base path is filled by the client and never bound by the server *)
+Definition get2_md := mkmd (s "GetItem") (s "GetReq2") (s "/items/{id}") 1.
+Definition get2_msg := mkmsg (s "GetReq2") [mkf (s "id") 1 KString None; mkf (s "tenant") 2 KString None].
+Definition sv_base := mksv (s "/t/{tenant}") [get2_md].
+Definition fl_base := mkfl [get2_msg] sv_base.
+Definition get2_req : mval := [(s "id", FS (VStr (s "a"))); (s "tenant", FS (VStr (s "acme")))].
+Example C01_needs_no_base_path_variable :
+  defects_C01 [fl_base] fl_base sv_base get2_md CtJSON get2_req = [] /\
+  template_ok (info_of fl_base sv_base get2_md (in_fields [fl_base] get2_md)) = false /\
+  outcome_of (go_call [fl_base] fl_base sv_base get2_md CtJSON get2_req resp1)
+    = Some (Delivered [(s "id", FS (VStr (s "a")))] resp1).
+Proof. vm_compute. repeat split; reflexivity. Qed.
